@@ -33,7 +33,10 @@ def _draw_inputs(count, cfg, stars=False):
     specs = U.gen_sigs(count, cfg['K'], cfg.get('total'), star_variants=stars,
                        allow_stars=cfg.get('allow_stars', True))
     ann_on = [[sym.flip('ann') for _ in s.names] for s in specs]
-    dv = [dict((nm, sym.sym_val('dv')) for nm, d in zip(s.names, s.defaults) if d) for s in specs]
+    # a default is None or an opaque value (None is also what merge writes when defaults differ)
+    none_ok = cfg.get('none_defaults', True)
+    dv = [dict((nm, None if (none_ok and sym.flip('default-is-None')) else sym.sym_val('dv'))
+               for nm, d in zip(s.names, s.defaults) if d) for s in specs]
     av = [dict((nm, sym.sym_val('av')) for nm, on in zip(s.names, a) if on) for s, a in zip(specs, ann_on)]
     return specs, ann_on, dv, av
 
@@ -297,18 +300,18 @@ def h_partial(ctx, cfg):
 def plan(tier):
     if tier == 'quick':
         return [
-            dict(name='merge-pairs-total2', fn='h_merge', depth=9, budget_s=240, cfg=dict(arity=2, K=2, total=2),
+            dict(name='merge-pairs-total2', fn='h_merge', depth=9, budget_s=420, cfg=dict(arity=2, K=2, total=2),
                  bounds='merge: role-consistent pairs, <=2 named in total, annotation on every subset, symbolic default/annotation values',
                  min_nontrivial=300, must_reach=['default-is-common-value', 'default-None-when-different',
                                                  'annotation-agreed', 'annotation-none-when-disagreeing-or-absent']),
-            dict(name='merge-triples-K1', fn='h_merge', depth=9, budget_s=240, cfg=dict(arity=3, K=1, allow_stars=False),
+            dict(name='merge-triples-K1', fn='h_merge', depth=9, budget_s=420, cfg=dict(arity=3, K=1, allow_stars=False),
                  bounds='merge: role-consistent triples, <=1 named each, no star parameters', min_nontrivial=300),
-            dict(name='embed-pairs-total2', fn='h_embed', depth=9, budget_s=240, cfg=dict(K=2, total=2),
+            dict(name='embed-pairs-total2', fn='h_embed', depth=9, budget_s=420, cfg=dict(K=2, total=2),
                  bounds='embed: pairs, <=2 named in total, 4 flag combinations', min_nontrivial=300,
                  must_reach=['outer-before-inner', 'annotation-kept']),
             dict(name='mask-K2', fn='h_mask', depth=8, budget_s=200, cfg=dict(K=2, names=1),
                  bounds='mask: <=2 named, num_args 0..len+2, <=1 name', min_nontrivial=200),
-            dict(name='forwards-total2', fn='h_forwards', depth=9, budget_s=240, cfg=dict(K=2, total=2, names=0),
+            dict(name='forwards-total2', fn='h_forwards', depth=9, budget_s=420, cfg=dict(K=2, total=2, names=0),
                  bounds='forwards: pairs, <=2 named in total, num_args 0..len+2, no names', min_nontrivial=300),
             dict(name='partial-K2', fn='h_partial', depth=8, budget_s=200, cfg=dict(K=2),
                  bounds='partial: <=2 named, <=2 bound keywords incl. foreign, symbolic bound values', min_nontrivial=200,
